@@ -96,13 +96,15 @@ def case(cid, rng):
         Yv[0, 0] = Yv[0, 0] if Yv[0, 0] != 0 else 0.5
         KVN = pairwise_kernels(Xv, X, metric=kp["kernel"], filter_params=True, **full)
         KVV = pairwise_kernels(Xv, metric=kp["kernel"], filter_params=True, **full)
-        h = {"V": V, "KVN": fq(KVN), "KVV": fq(KVV), "Y": fq(Yv), "TV": [], "yp": [], "score": 0, "raised": False}
+        h = {"V": V, "KVN": fq(KVN), "KVV": fq(KVV), "Y": fq(Yv), "TV": [], "yp": [], "score": 0, "raised": False, "finite": True}
         try:
             with warnings.catch_warnings():
                 warnings.simplefilter("ignore")
                 h["TV"] = fq(mdl.transform(Xv))
                 h["yp"] = fq(np.reshape(mdl.predict(Xv), (V, -1)))
-                h["score"] = int(round(float(mdl.score(Xv, Yv)) * S))
+                sc_ = float(mdl.score(Xv, Yv))
+                h["finite"] = bool(np.isfinite(sc_))        # 0/0 when the centred self-kernel of the held-out set vanishes
+                h["score"] = int(round(sc_ * S)) if h["finite"] else 0
         except Exception as e:  # noqa
             h["raised"] = True
             h["msg"] = "%s: %s" % (type(e).__name__, str(e)[:120])
@@ -158,7 +160,7 @@ KEYS = ("id", "kernel", "center", "a", "k", "raised", "KNN", "iscale", "W", "TN"
 
 def strip(c):
     d = {k: c[k] for k in KEYS}
-    d["held"] = [{k: h[k] for k in ("KVN", "KVV", "Y", "TV", "yp", "score", "raised")} for h in c["held"]]
+    d["held"] = [{k: h[k] for k in ("KVN", "KVV", "Y", "TV", "yp", "score", "raised", "finite")} for h in c["held"]]
     d["routes"] = [{k: r[k] for k in ("TN", "TV", "yp", "lamlast")} for r in c["routes"]]
     return d
 
